@@ -112,6 +112,12 @@ class Matcher:
         'ASCII_DIGIT': lambda x: z3.And(z3.UGE(x, 48), z3.ULE(x, 57)),
         'ASCII_ALPHA': lambda x: z3.Or(z3.And(z3.UGE(x, 65), z3.ULE(x, 90)), z3.And(z3.UGE(x, 97), z3.ULE(x, 122))),
         'ASCII_ALPHANUMERIC': lambda x: z3.Or(z3.And(z3.UGE(x, 48), z3.ULE(x, 57)), z3.And(z3.UGE(x, 65), z3.ULE(x, 90)), z3.And(z3.UGE(x, 97), z3.ULE(x, 122))),
+        # Unicode White_Space property (pest's WHITE_SPACE built-in)
+        'WHITE_SPACE': lambda x: z3.Or(*[z3.And(z3.UGE(x, lo), z3.ULE(x, hi)) for lo, hi in ((0x09, 0x0D), (0x20, 0x20), (0x85, 0x85), (0xA0, 0xA0), (0x1680, 0x1680), (0x2000, 0x200A), (0x2028, 0x2029), (0x202F, 0x202F), (0x205F, 0x205F), (0x3000, 0x3000))]),
+        'ASCII_HEX_DIGIT': lambda x: z3.Or(z3.And(z3.UGE(x, 48), z3.ULE(x, 57)), z3.And(z3.UGE(x, 65), z3.ULE(x, 70)), z3.And(z3.UGE(x, 97), z3.ULE(x, 102))),
+        'ASCII_ALPHA_LOWER': lambda x: z3.And(z3.UGE(x, 97), z3.ULE(x, 122)),
+        'ASCII_ALPHA_UPPER': lambda x: z3.And(z3.UGE(x, 65), z3.ULE(x, 90)),
+        'ASCII_NONZERO_DIGIT': lambda x: z3.And(z3.UGE(x, 49), z3.ULE(x, 57)),
     }
 
     def fail(self, res):
